@@ -1875,6 +1875,31 @@ func specTellable(m LogWriter) bool {
 //@   assigns s.buf, s.off, s.lastRead, s.buf[:]
 //@   ensures [C02.inv] 0 <= s.off && s.off <= len(s.buf) && implies(old(s.off) == 0, s.off == 0)
 
+// ---- small helpers on the logging path (hand-written)
+
+//@ func hintInternal
+//@   props C02
+
+//@ func (*PrintCtx).checkerr
+//@   props C02
+//@   requires s != nil
+
+//@ func bsearch16
+//@   props C02 C05
+//@   ensures [C05.bsearch] 0 <= result && result <= len(a)
+//@   loop 1 invariant 0 <= i && i <= j && j <= len(a)
+//@   loop 1 decreases j - i
+
+//@ func isInGraphicList
+//@   props C02 C05
+
+//@ func (*PrintCtx).PreAlloc
+//@   props C02
+//@   requires s != nil && s.off == 0 && 0 <= n && n <= 4398046511104
+//@   assigns s.buf, s.buf[:]
+//@   ensures [C02.prealloc] len(s.buf) == old(len(s.buf)) && forall(i, 0, len(s.buf), s.buf[i] == old(s.buf[i])) && grown(s.buf, old(s.buf))
+
+
 // ---- generated by /verif/tools/gen_auto.py: synthesized contracts for the no-panic sweep of printImpl's call tree
 //@ func convertLevelToLogSlog
 //@   props C02
@@ -1889,10 +1914,6 @@ func specTellable(m LogWriter) bool {
 //@   auto
 
 //@ func argsToAttrs
-//@   props C02
-//@   auto
-
-//@ func (*PrintCtx).checkerr
 //@   props C02
 //@   auto
 
@@ -1920,23 +1941,11 @@ func specTellable(m LogWriter) bool {
 //@   props C02
 //@   auto
 
-//@ func (*PrintCtx).PreAlloc
-//@   props C02
-//@   auto
-
 //@ func appendQuotedWith
 //@   props C02
 //@   auto
 
 //@ func appendEscapedRune
-//@   props C02
-//@   auto
-
-//@ func isInGraphicList
-//@   props C02
-//@   auto
-
-//@ func bsearch16
 //@   props C02
 //@   auto
 
@@ -2191,6 +2200,7 @@ func specTellable(m LogWriter) bool {
 //@ func (*PrintCtx).pcAppendRune
 //@   props C02
 //@   auto
+
 
 // ---------------------------------------------------------------- C19 buffer API (generated)
 // ---- generated by /verif/tools/gen_c19.py: the bytes.Buffer specification, for logg's PrintCtx ...
@@ -2675,3 +2685,4 @@ func specTellable(m LogWriter) bool {
 //@ func bytes::NewBufferString
 //@   props C19
 //@   ensures [C19.newstring] result != nil && fresh(result) && result.off == 0 && result.lastRead == opInvalid && len(result.buf) == len(s) && contentid(result.buf) == contentid(s)
+
